@@ -384,7 +384,16 @@ class NameBinding(Binding):
             elif isinstance(node, ast.ExceptHandler):
                 node.name = new_name
             elif isinstance(node, (ast.Global, ast.Nonlocal)):
-                node.names = [new_name if n == self._name else n for n in node.names]
+                # Only rename the names that belong to this binding.
+                # Another binding in the same statement may already have been renamed to this binding's current name.
+                names_renamed = getattr(node, 'names_renamed', set())
+                names = list(node.names)
+                for i, n in enumerate(names):
+                    if n == self._name and i not in names_renamed:
+                        names[i] = new_name
+                        names_renamed.add(i)
+                node.names = names
+                node.names_renamed = names_renamed
             elif isinstance(node, ast.arguments):
 
                 rename_vararg = (node.vararg == self._name) and not getattr(node, 'vararg_renamed', False)
